@@ -2,6 +2,7 @@ package main
 
 import (
 	"fmt"
+	"os"
 	"go/types"
 	"strings"
 
@@ -492,7 +493,16 @@ func sameValue(a, b Value) bool {
 	case nil:
 		return b == nil
 	case MapC:
-		return false
+		y, ok := b.(MapC)
+		if !ok || x.Dom != y.Dom || x.Card != y.Card || x.RestID != y.RestID || len(x.Assoc) != len(y.Assoc) {
+			return false
+		}
+		for i := range x.Assoc {
+			if x.Assoc[i].Key != y.Assoc[i].Key || !sameValue(x.Assoc[i].Val, y.Assoc[i].Val) {
+				return false
+			}
+		}
+		return true
 	case bool:
 		y, ok := b.(bool)
 		return ok && x == y
@@ -575,25 +585,127 @@ func (e *Engine) applyContract(fr *Frame, st *State, con *Contract, sig *types.S
 		}
 	}
 	// result values may be replaced by strong updates (slice geometry)
-	ctx.setVar = func(name string, v Value) bool {
-		for i, rn := range con.Results {
-			if rn == name && i < len(res) && v != nil {
-				res[i] = v
-				ctx.bind[name] = v
-				return true
+	mkSetVar := func(cx *EvalCtx, rs []Value) func(string, Value) bool {
+		return func(name string, v Value) bool {
+			for i, rn := range con.Results {
+				if rn == name && i < len(rs) && v != nil {
+					rs[i] = v
+					cx.bind[name] = v
+					return true
+				}
 			}
+			return false
 		}
-		return false
+	}
+	ctx.setVar = mkSetVar(ctx, res)
+	var pend []pendingFork
+	ctx.pend = &pend
+	// clauses that rebuild a map from its old value come first (they are strong updates)
+	var first, rest []Expr
+	var split func(x Expr)
+	split = func(x Expr) {
+		if b, ok := x.(*EBinary); ok && b.Op == "&&" {
+			split(b.X)
+			split(b.Y)
+			return
+		}
+		if cl, ok := x.(*ECall); ok && cl.Fun == "sameExcept" {
+			first = append(first, x)
+			return
+		}
+		rest = append(rest, x)
 	}
 	for _, cl := range con.Cases[0].Ensures {
-		ctx.assume(cl.E)
+		split(cl.E)
+	}
+	for _, x := range append(first, rest...) {
+		ctx.assume(x)
+	}
+	outs := []Outcome{{st: st, results: res}}
+	// group conditional strong updates by antecedent: one fork per distinct condition
+	{
+		var grouped []pendingFork
+		idx := map[string]int{}
+		for _, pf := range pend {
+			k := exprStr(pf.P)
+			if i, ok := idx[k]; ok {
+				grouped[i].Q = &EBinary{"&&", grouped[i].Q, pf.Q}
+				continue
+			}
+			idx[k] = len(grouped)
+			grouped = append(grouped, pf)
+		}
+		pend = grouped
+	}
+	for _, pf := range pend {
+		var next []Outcome
+		for _, o := range outs {
+			// branch where the antecedent holds: strong update
+			s1 := o.st.clone()
+			r1 := append([]Value(nil), o.results...)
+			c1 := *ctx
+			c1.st = s1
+			c1.pend = nil
+			c1.bind = make(map[string]Value, len(ctx.bind))
+			for k, v := range ctx.bind {
+				c1.bind[k] = v
+			}
+			for i, name := range con.Results {
+				if i < len(r1) {
+					c1.bind[name] = r1[i]
+				}
+			}
+			c1.setVar = mkSetVar(&c1, r1)
+			pt := c1.boolean(pf.P)
+			if os.Getenv("TQV_DEBUG") != "" {
+				d, ok := e.decided(o.st, pt)
+				fmt.Fprintf(os.Stderr, "fork %s on %s: pt=%s decided=%v/%v\n", con.Key, exprStr(pf.P), pt, d, ok)
+			}
+			if d, ok := e.decided(o.st, pt); ok {
+				// the condition is already decided on this path
+				if d {
+					c0 := c1
+					c0.st = o.st
+					c0.setVar = mkSetVar(&c0, o.results)
+					c0.assume(pf.Q)
+				}
+				next = append(next, o)
+				continue
+			}
+			s1.assume(pt)
+			c1.assume(pf.Q)
+			// branch where it does not
+			c2 := *ctx
+			c2.st = o.st
+			c2.pend = nil
+			c2.bind = make(map[string]Value, len(ctx.bind))
+			for k, v := range ctx.bind {
+				c2.bind[k] = v
+			}
+			for i, name := range con.Results {
+				if i < len(o.results) {
+					c2.bind[name] = o.results[i]
+				}
+			}
+			o.st.assume(Not(c2.boolean(pf.P)))
+			next = append(next, o, Outcome{st: s1, results: r1})
+		}
+		outs = next
 	}
 	if con.Kind == "trusted func" || con.Kind == "interface" {
 		e.noteAssumption("assumed contract of " + con.Key + " (" + con.Kind + ")")
 	}
 	// vacuity guard: the assumed post-condition must be consistent with the path
-	e.addObl(st, fmt.Sprintf("%s/cover.call@%s#0", e.curFn, con.Key), "cover", nil, TFalse, "COVER: state after assuming the contract of "+con.Key+" is satisfiable", "")
-	return []Outcome{{st: st, results: res}}
+	for _, o := range outs {
+		e.addObl(o.st, fmt.Sprintf("%s/cover.call@%s#0", e.curFn, con.Key), "cover", nil, TFalse, "COVER: state after assuming the contract of "+con.Key+" is satisfiable", "")
+	}
+	var live []Outcome
+	for _, o := range outs {
+		if !o.st.dead {
+			live = append(live, o)
+		}
+	}
+	return live
 }
 
 // ---------- defers ----------
